@@ -925,11 +925,14 @@ fn check(c: &Case, kind: &Kind) -> Verdict {
                     if lhs.contains("$saturation: color.saturation($c)") {
                         let msg = rs::compile_str(&sheet, P15);
                         let s = run_sheet(&format!(
-                            "{PRELUDE}$c: {};\na {{\n s: color.saturation($c);\n}}\n",
+                            "{PRELUDE}$c: {};\na {{\n s: (color.saturation($c) - 100%) * 1000000000000;\n}}\n",
                             c.color
                         ))
                         .ok()
-                        .and_then(|d| num_of(&d, "s"));
+                        .and_then(|d| num_of(&d, "s"))
+                        // the excess is a few ulp: observe it scaled by 1e12 (numbers print
+                        // with at most 16 significant digits)
+                        .map(|x| 100.0 + x / 1e12);
                         if msg.err_head() == Some("$saturation: Expected 100% to be within 0% and 100%.")
                             && matches!(s, Some(s) if s > 100.0 && s < 100.0 + 1e-9)
                         {
